@@ -20,7 +20,7 @@ Proof. split; [exact numbers_match_seq | exact numbers_match_choice]. Qed.
     bounded-exhaustively for every value of a flat SEQUENCE with an OPTIONAL, both profiles *)
 Theorem C18_decodes_under_schema_partial : forall m b x oy,
   (m = dev_mode \/ m = release_mode) ->
-  x < 256 -> (forall y, oy = Some y -> (-128 <= y < 128)%Z) ->
+  x < 256 -> (forall y, oy = Some y -> (-32 <= y < 32)%Z) ->
   let v := VSeq [VBool b; VInt (Z.of_N x); VOpt (option_map VInt oy)] in
   exists bs, pwrite_vec m flat_ty v = Ok bs /\
              pb_decode flat_schema bs = Some (flat_expected b x oy) /\
@@ -32,21 +32,18 @@ Theorem C18_schema_valid_partial : forall t, In t good_types -> schema_valid t =
 Proof. exact schema_valid_good. Qed.
 
 (** ** classes in which the faithful model refutes the property *)
-(* a NULL component is declared `bytes x = n` but write_null neither writes nor advances the counter:
-   every later component is written under the previous number *)
-Definition Known_null_field (t : pty) : Prop :=
-  exists fs, t = TSeq fs /\ exists o, In (o, TNull) fs.
+(* repaired in /repo b404bbf: a NULL component is declared `bytes x = n`, nothing is written for it, and
+   write_null now advances the counter, so the later components keep their declared numbers *)
 Definition t_nullseq := TSeq [(false, TInt KU8); (false, TNull); (false, TInt KU8)].
-Theorem C18_refuted_null_field :
-  Known_null_field t_nullseq /\
+Example C18_null_field_fixed :
   let v := VSeq [VInt 1; VNull; VInt 2] in
   exists m, schema_of t_nullseq = Some m /\
-    pwrite_vec dev_mode t_nullseq v = Ok [8; 1; 16; 2] /\
-    pb_decode m [8; 1; 16; 2] = Some [BNum 1; BBytes []; BNum 0] /\
+    pwrite_vec dev_mode t_nullseq v = Ok [8; 1; 24; 2] /\
+    pb_decode m [8; 1; 24; 2] = Some [BNum 1; BBytes []; BNum 2] /\
     pb_of_val t_nullseq v = Some [BNum 1; BBytes []; BNum 2].
 Proof.
-  split; [eexists; split; [reflexivity|exists false; right; left; reflexivity]|].
-  eexists. vm_compute. repeat split; reflexivity.
+  exists [(1, PScalar SUInt32); (2, PScalar SBytes); (3, PScalar SUInt32)].
+  vm_compute. repeat split; reflexivity.
 Qed.
 
 (* a SET with explicit tags is written in canonical tag order but declared in textual order *)
@@ -81,7 +78,10 @@ Theorem C18_refuted_choice_null :
     pwrite_vec dev_mode t (VChoice 0 VNull) = Ok [] /\
     pb_decode m [] = Some [BOneof None] /\
     pb_of_val t (VChoice 0 VNull) = Some [BOneof (Some (1, BBytes []))].
-Proof. eexists. vm_compute. repeat split; reflexivity. Qed.
+Proof.
+  exists [(1, POneofT [(1, PScalar SBytes); (2, PScalar SUInt32)])].
+  vm_compute. repeat split; reflexivity.
+Qed.
 
 (* non-vacuity *)
 Example C18_nonvacuous :
@@ -96,7 +96,6 @@ Proof. vm_compute. repeat split; try reflexivity. do 13 right. left. reflexivity
 Print Assumptions C18_numbers_match.
 Print Assumptions C18_decodes_under_schema_partial.
 Print Assumptions C18_schema_valid_partial.
-Print Assumptions C18_refuted_null_field.
 Print Assumptions C18_refuted_set_order.
 Print Assumptions C18_refuted_nested_list_proto.
 Print Assumptions C18_refuted_choice_list_proto.
